@@ -701,7 +701,12 @@ class RemoteError(Exception):
     def warn(self) -> None:
         if self.formatted != INTERRUPT_TEXT:
             # XXX do this better
-            sys.stderr.write(f"[{os.getpid()}] Warning: unhandled {self!r}\n")
+            try:
+                sys.stderr.write(f"[{os.getpid()}] Warning: unhandled {self!r}\n")
+            except (AttributeError, OSError, ValueError):
+                # no usable stderr (closed, None, reader gone): the warning
+                # is lost, the threads calling this must go on
+                pass
 
 
 class TimeoutError(IOError):
